@@ -16,6 +16,30 @@ CHECKS = {
             "enumerated completely within its bounds, data values are not.",
             "Keys/plaintext bytes from seed-derived alphabets; lengths beyond 3*cs+1 by the periodicity argument in DESIGN.md; REF (OpenSSL) is used as a cross-check reader.",
             "DESIGN.md §6 C01"),
+    "C03": ("model_checking", "E-GRAPH",
+            "explicit-state breadth-first search (stateright) over ciphertext edits with the real decryptor run in every state, plus deviation-bounded words of REF-minted records",
+            "States are byte strings reachable from REF-written authentic files (key mode, password mode, hooked loop) by <=2 (quick) / <=3 (thorough) "
+            "edits from a ~300-letter alphabet (every bit and every truncation offset at depth 1; splices of records and header fields of other "
+            "authentic files, reorder/duplicate/drop, counter/flag/length rewrites, re-framing). In every state the real decryptor runs and its "
+            "verdict is compared with the acceptance model = the property statement (exact corpus file => accept with its plaintext and sender; differs "
+            "only in counter fields => don't care but output must be right; anything else => must reject). The model is cross-checked against REF in every state. "
+            "Model checking level: exhaustive within the depth/alphabet bound, every model state validated against the implementation.",
+            "AEAD/DH unforgeability assumed; corpus values from seed-derived alphabets; edit sequences beyond the depth bound not explored; password mode through the public API only at depth 1 (scrypt cost), deeper through the hooked loop with the magic as AAD.",
+            "DESIGN.md §6 C03"),
+    "C04": ("model_checking", "E-GRAPH",
+            "same explicit-state edit graph as C03 with a write-log invariant evaluated on the real decryptor in every state; E-ENV fault enumeration on authentic and tampered files",
+            "In every state of the C03 graphs (and every minted-record word) the real decryptor writes into a recording sink; each written range must be "
+            "authentic plaintext of chunks that are authentic in place and whose whole record had already been consumed, and Ok is allowed only for complete authentic input. "
+            "Additionally every fault at every call index (plus bounded short reads/writes) while decrypting 12 authentic/tampered inputs per corpus, same predicate on the offered buffers.",
+            "Final-chunk-before-trailing-data order deliberately unconstrained; corpus written by REF; AEAD unforgeability assumed.",
+            "DESIGN.md §6 C04"),
+    "C06": ("exploration", "E-GRID",
+            "exhaustive enumeration of (length x read partition x key set) and (length x chunking) products against the executable specification REF, byte for byte",
+            "Encrypt side: every read partition of every L<=10 (key mode, public API, injected ephemeral/payload key), boundary lengths, password mode, and every "
+            "partition in the hooked loop: Rust bytes == REF bytes. Decrypt side: REF-written files for every composition of L<=8 into chunk sizes, mixtures of {1,2,cs-1,cs}, "
+            ">=66000 one-byte chunks (counter reaches the third nonce byte on both paths), nonce layout across the 64-bit range, frozen golden files.",
+            "REF (OpenSSL-based, self-tested against RFC vectors and the cacophony Noise-X vector) is the meaning of 'documented format'; only two genuine 1.x artefacts exist.",
+            "DESIGN.md §6 C06"),
     "C10": ("fault_enumeration", "E-ENV",
             "exhaustive fault injection: every fault kind at every read/write/flush call index, on top of bounded short-I/O schedules; CLI-level real I/O failures",
             "For every explored run and every call index k, each fault (Interrupted/Other on read, Ok(0)/Interrupted/Other on write, "
